@@ -79,7 +79,7 @@ func startRaftNode(id uint64, address string, nodeIds []uint64, storage wal.WAL,
 		var peers []etcdRaft.Peer
 		for _, nodeId := range nodeIds {
 			peer := etcdRaft.Peer{ID: nodeId}
-			if nodeId == id {
+			if nodeId == id && address != "" {
 				// The bootstrap entry of this node announces its address, like a join does
 				peer.Context = []byte(address)
 			}
@@ -121,7 +121,13 @@ func NewRaftGroup(id uuid.UUID, nodeIds []uint64, storage wal.WAL, transport *Ra
 	})
 
 	ctx, ctxCancel := context.WithCancel(context.Background())
-	raftNode, err := startRaftNode(transport.NodeId(), transport.Address(), nodeIds, storage, logger)
+	// Only the zero group's membership entries carry addresses. The bootstrap entries
+	// of a partition group are written by every replica on its own and must be identical.
+	address := ""
+	if uuid.Equal(id, uuid.Nil) {
+		address = transport.Address()
+	}
+	raftNode, err := startRaftNode(transport.NodeId(), address, nodeIds, storage, logger)
 	if err != nil {
 		return nil, err
 	}
